@@ -57,6 +57,11 @@ class Rec(NodeBase):
     def _obs(self, event):
         self.log.append(type(event).__name__)
 
+    # hooked up only after the object has been initialised - also when it is a copy
+    @observe("value", post_init=True)
+    def _obs_post(self, event):
+        self.log.append("post_init_observer")
+
     def _tags_items_changed(self, event):
         self.log.append("legacy_items")
 
@@ -69,6 +74,17 @@ class Rec(NodeBase):
 
 class Plain(HasTraits):
     pass
+
+
+class PostOnly(HasTraits):
+    """A class whose only declared handler is an observer with post_init=True (no
+    legacy listeners, no delegation, no observed properties)."""
+    v = Int()
+    log = List(transient=True)
+
+    @observe("v", post_init=True)
+    def _obs_post(self, event):
+        self.log.append("post_init_observer")
 
 
 import traits.api as _t
